@@ -5,12 +5,15 @@
 wt="$1"; k="$2"; shift 2
 cd "$wt" || exit 3
 git checkout -q -- src
+# bring the worktree to /repo's current HEAD (later fix: commits included), with /repo's generated parser
+git checkout -q --detach "$(git -C /repo rev-parse HEAD)" || exit 3
+cp /repo/src/scenic/syntax/parser.py src/scenic/syntax/parser.py
 echo "== demo without change"; PYTHONPATH=$wt/src timeout 900 /venv/bin/python SEEDED/demo$k.py >/tmp/seed_demo_without.log 2>&1; echo "rc=$?"
 git apply SEEDED/change$k.diff || { echo "patch does not apply"; exit 3; }
 echo "== demo with change"; PYTHONPATH=$wt/src timeout 900 /venv/bin/python SEEDED/demo$k.py >/tmp/seed_demo_with.log 2>&1; echo "rc=$?"
 for c in "$@"; do
   echo "== check $c against the change"
-  (cd /verif && PYTHONPATH=$wt/src VERIF_EVIDENCE_SUFFIX=.seeded timeout 3000 ./check $c --tier quick 2>&1 | grep -E "^VIOLATION|^\[C|MACHINERY|KNOWN-FINDING" | head -6)
+  (cd /verif && PYTHONPATH=$wt/src VERIF_EVIDENCE_SUFFIX=.seeded timeout 3000 ./check $c --tier quick > /tmp/seed_check_$c.log 2>&1; echo "   rc=$? violations=$(grep -c '^VIOLATION' /tmp/seed_check_$c.log)"; grep -E "^\[C|MACHINERY|KNOWN-FINDING" /tmp/seed_check_$c.log | cut -c1-160; grep -A1 "^VIOLATION" /tmp/seed_check_$c.log | grep -v "^VIOLATION\|^--" | head -2 | cut -c1-260)
 done
 git checkout -q -- src
 echo "== reverted"
